@@ -7,10 +7,16 @@
 (*   clog    retained entries [off, key, val] of the cursors partition     *)
 (*           in offset order (val = the cursor offset that was stored)     *)
 (*   segs    base offsets of its segments; next = next offset to assign    *)
+(*   segCap  entries a segment takes before the next append rolls it       *)
+(*           (fixed per behaviour, like cacheOn)                           *)
 (*   hw      its high watermark                                            *)
 (*   cache   the cursor manager's LRU as a sequence [key, val], least      *)
 (*           recently used first; cacheOn = FALSE models disableCache      *)
 (*           (lookups skipped, results still stored)                       *)
+(*   ldr     the server that leads the cursors partition ("a" / "b": with  *)
+(*           two servers the partition is replicated by both); clog, segs, *)
+(*           hw and cache are the LEADER's log and cache, ocache is the    *)
+(*           cache of the other server (what it cached while it led)       *)
 (*   paused  the cursors partition is paused (its log closed); the next    *)
 (*           Set (publish) or Fetch that has to read it resumes it, and    *)
 (*           becoming its leader again purges the cache                    *)
@@ -40,11 +46,11 @@
 EXTENDS Integers, Sequences, FiniteSets
 
 CONSTANTS Cap,        \* capacity of the LRU
-          SegCap,     \* entries per segment of the cursors partition
+          SegCaps,    \* entries per segment of the cursors partition: the values a behaviour may run with
           FixStale
 
-VARIABLES clog, segs, next, hw, cache, cacheOn, paused, pend, cur, gen, fails, cln, obs
-vars == <<clog, segs, next, hw, cache, cacheOn, paused, pend, cur, gen, fails, cln, obs>>
+VARIABLES clog, segs, next, hw, cache, cacheOn, segCap, ldr, ocache, paused, pend, cur, gen, fails, cln, obs
+vars == <<clog, segs, next, hw, cache, cacheOn, segCap, ldr, ocache, paused, pend, cur, gen, fails, cln, obs>>
 
 Keys == {"k1", "k2", "k3"}
 Clients == {"c1", "c2"}
@@ -72,7 +78,7 @@ SegRecs(l, ss, k) ==
 
 \* publish one entry: roll when the active segment is full, append, commit
 Published(k, v) ==
-  LET full == Len(SegRecs(clog, segs, Len(segs))) >= SegCap IN
+  LET full == Len(SegRecs(clog, segs, Len(segs))) >= segCap IN
   [clog |-> Append(clog, [off |-> next, key |-> k, val |-> v]),
    segs |-> IF full THEN Append(segs, next) ELSE segs]
 
@@ -124,7 +130,8 @@ Resumed(c) == IF paused THEN <<>> ELSE c
 
 Init ==
   /\ clog = <<>> /\ segs = <<0>> /\ next = 0 /\ hw = -1
-  /\ cache = <<>> /\ cacheOn \in BOOLEAN /\ paused = FALSE
+  /\ cache = <<>> /\ cacheOn \in BOOLEAN /\ segCap \in SegCaps /\ paused = FALSE
+  /\ ldr = "a" /\ ocache = <<>>
   /\ pend = [c \in Clients |-> NoPend]
   /\ cur = [k \in Keys |-> -1]
   /\ gen = 0 /\ fails = {} /\ cln = NoCln
@@ -153,7 +160,7 @@ DoSet(k, v) ==
   /\ pend' = Note(k, v)
   /\ fails' = {f \in fails : f.key # k}       \* superseded; the others are committed now
   /\ obs' = [a |-> "Set", ret |-> v, err |-> ""]
-  /\ UNCHANGED <<cacheOn, cln>>
+  /\ UNCHANGED <<cacheOn, segCap, ldr, ocache, cln>>
 
 \* a SetCursor whose publish is appended to the leader's log but cannot be committed
 \* (ISR below the minimum ISR size / follower not acknowledging): it fails with a
@@ -164,17 +171,17 @@ DoSetFail(k, v) ==
   /\ clog' = p.clog /\ segs' = p.segs /\ next' = next + 1
   /\ fails' = fails \cup {[key |-> k, val |-> v, off |-> next]}
   /\ obs' = [a |-> "SetFail", ret |-> v, err |-> "Internal"]
-  /\ UNCHANGED <<hw, cache, cacheOn, paused, pend, cur, gen, cln>>
+  /\ UNCHANGED <<hw, cache, cacheOn, segCap, ldr, ocache, paused, pend, cur, gen, cln>>
 
 \* a complete FetchCursor with no other call in between
 DoFetch(k) ==
   IF cacheOn /\ Has(cache, k) THEN
     /\ cache' = CacheTouch(cache, k)
     /\ obs' = [a |-> "Fetch", ret |-> ValOf(cache, k), err |-> ""]
-    /\ UNCHANGED <<clog, segs, next, hw, cacheOn, paused, pend, cur, gen, fails, cln>>
+    /\ UNCHANGED <<clog, segs, next, hw, cacheOn, segCap, ldr, ocache, paused, pend, cur, gen, fails, cln>>
   ELSE IF ScanErr(k) THEN
     /\ obs' = [a |-> "Fetch", ret |-> -1, err |-> "Internal"]
-    /\ UNCHANGED <<clog, segs, next, hw, cache, cacheOn, paused, pend, cur, gen, fails, cln>>
+    /\ UNCHANGED <<clog, segs, next, hw, cache, cacheOn, segCap, ldr, ocache, paused, pend, cur, gen, fails, cln>>
   ELSE
     \* (the scan resumes a paused partition; the purge that follows invalidates
     \* the value this very call has read)
@@ -182,7 +189,7 @@ DoFetch(k) ==
     /\ paused' = FALSE
     /\ gen' = IF paused THEN gen + 1 ELSE gen
     /\ obs' = [a |-> "Fetch", ret |-> ScanVal(k), err |-> ""]
-    /\ UNCHANGED <<clog, segs, next, hw, cacheOn, pend, cur, fails, cln>>
+    /\ UNCHANGED <<clog, segs, next, hw, cacheOn, segCap, ldr, ocache, pend, cur, fails, cln>>
 
 \* FetchCursor of client c up to the end of its scan (or to its end on a cache hit)
 DoFetchBegin(c, k) ==
@@ -190,17 +197,17 @@ DoFetchBegin(c, k) ==
   /\ IF cacheOn /\ Has(cache, k) THEN
        /\ cache' = CacheTouch(cache, k)
        /\ obs' = [a |-> "FetchBegin", ret |-> ValOf(cache, k), err |-> "done"]
-       /\ UNCHANGED <<clog, segs, next, hw, cacheOn, paused, pend, cur, gen, fails, cln>>
+       /\ UNCHANGED <<clog, segs, next, hw, cacheOn, segCap, ldr, ocache, paused, pend, cur, gen, fails, cln>>
      ELSE IF ScanErr(k) THEN
        /\ obs' = [a |-> "FetchBegin", ret |-> -1, err |-> "Internal"]
-       /\ UNCHANGED <<clog, segs, next, hw, cache, cacheOn, paused, pend, cur, gen, fails, cln>>
+       /\ UNCHANGED <<clog, segs, next, hw, cache, cacheOn, segCap, ldr, ocache, paused, pend, cur, gen, fails, cln>>
      ELSE
        /\ cache' = Resumed(cache)
        /\ paused' = FALSE
        /\ pend' = [pend EXCEPT ![c] = [on |-> TRUE, key |-> k, val |-> ScanVal(k), allowed |-> AllowedNow(k), gen |-> gen]]
        /\ gen' = IF paused THEN gen + 1 ELSE gen
        /\ obs' = [a |-> "FetchBegin", ret |-> -1, err |-> "pending"]
-       /\ UNCHANGED <<clog, segs, next, hw, cacheOn, cur, fails, cln>>
+       /\ UNCHANGED <<clog, segs, next, hw, cacheOn, segCap, ldr, ocache, cur, fails, cln>>
 
 \* ... and its end: the scanned value is stored in the cache and returned
 DoFetchEnd(c) ==
@@ -209,13 +216,13 @@ DoFetchEnd(c) ==
               ELSE CacheAdd(cache, pend[c].key, pend[c].val)
   /\ pend' = [pend EXCEPT ![c] = NoPend]
   /\ obs' = [a |-> "FetchEnd", ret |-> pend[c].val, err |-> ""]
-  /\ UNCHANGED <<clog, segs, next, hw, cacheOn, paused, cur, gen, fails, cln>>
+  /\ UNCHANGED <<clog, segs, next, hw, cacheOn, segCap, ldr, ocache, paused, cur, gen, fails, cln>>
 
 DoClean ==
   /\ ~paused /\ ~cln.on
   /\ clog' = Compacted.clog /\ segs' = Compacted.segs
   /\ obs' = [a |-> "Clean", ret |-> -1, err |-> ""]
-  /\ UNCHANGED <<next, hw, cache, cacheOn, paused, pend, cur, gen, fails, cln>>
+  /\ UNCHANGED <<next, hw, cache, cacheOn, segCap, ldr, ocache, paused, pend, cur, gen, fails, cln>>
 
 \* the clean in its two steps: the compaction works on a snapshot of the segment
 \* list without the log mutex; appends and segment rolls go on meanwhile
@@ -223,7 +230,7 @@ DoCleanBegin ==
   /\ ~paused /\ ~cln.on
   /\ cln' = [on |-> TRUE, dead |-> CompactDead, n |-> Len(segs)]
   /\ obs' = [a |-> "CleanBegin", ret |-> -1, err |-> ""]
-  /\ UNCHANGED <<clog, segs, next, hw, cache, cacheOn, paused, pend, cur, gen, fails>>
+  /\ UNCHANGED <<clog, segs, next, hw, cache, cacheOn, segCap, ldr, ocache, paused, pend, cur, gen, fails>>
 
 \* ... then the cleaned segments are swapped in and the segments rolled meanwhile
 \* are put behind them
@@ -232,13 +239,24 @@ DoCleanEnd ==
   /\ clog' = Swapped(cln.dead, cln.n).clog /\ segs' = Swapped(cln.dead, cln.n).segs
   /\ cln' = NoCln
   /\ obs' = [a |-> "CleanEnd", ret |-> -1, err |-> ""]
-  /\ UNCHANGED <<next, hw, cache, cacheOn, paused, pend, cur, gen, fails>>
+  /\ UNCHANGED <<next, hw, cache, cacheOn, segCap, ldr, ocache, paused, pend, cur, gen, fails>>
+
+\* a tick of the partition's cleaner loop first checks the active segment: one that
+\* is full (the last write filled it) or older than the segment age limit is rolled,
+\* which leaves an EMPTY active segment behind - the HW then lies in a segment that
+\* is no longer the active one and that the next clean may compact.  (The age is
+\* not modelled: any non-empty active segment may be found old enough.)
+DoRoll ==
+  /\ ~paused
+  /\ segs' = IF SegRecs(clog, segs, Len(segs)) # <<>> THEN Append(segs, next) ELSE segs
+  /\ obs' = [a |-> "Roll", ret |-> -1, err |-> ""]
+  /\ UNCHANGED <<clog, next, hw, cache, cacheOn, segCap, ldr, ocache, paused, pend, cur, gen, fails, cln>>
 
 DoPause ==
   /\ ~paused /\ ~cln.on /\ hw = next - 1
   /\ paused' = TRUE
   /\ obs' = [a |-> "Pause", ret |-> -1, err |-> ""]
-  /\ UNCHANGED <<clog, segs, next, hw, cache, cacheOn, pend, cur, gen, fails, cln>>
+  /\ UNCHANGED <<clog, segs, next, hw, cache, cacheOn, segCap, ldr, ocache, pend, cur, gen, fails, cln>>
 
 \* server restart over the same data directory (no call in flight)
 DoRestart ==
@@ -246,7 +264,26 @@ DoRestart ==
   /\ ~cln.on /\ hw = next - 1
   /\ cache' = <<>> /\ gen' = 0
   /\ obs' = [a |-> "Restart", ret |-> -1, err |-> ""]
-  /\ UNCHANGED <<clog, segs, next, hw, cacheOn, paused, pend, cur, fails, cln>>
+  /\ UNCHANGED <<clog, segs, next, hw, cacheOn, segCap, ldr, ocache, paused, pend, cur, fails, cln>>
+
+\* The cursors partition changes its leader between two live servers (the controller
+\* elects the other in-sync replica; nothing is in flight and the follower has caught
+\* up, so both logs are the same): the new leader purges whatever it cached when it
+\* led before, the old leader keeps its cache while it only follows.
+Other(s) == IF s = "a" THEN "b" ELSE "a"
+DoHandover ==
+  /\ ~paused /\ ~cln.on /\ hw = next - 1
+  /\ \A c \in Clients : ~pend[c].on
+  /\ ldr' = Other(ldr)
+  /\ cache' = <<>> /\ ocache' = cache
+  /\ gen' = gen + 1
+  /\ obs' = [a |-> "Handover", ret |-> -1, err |-> ""]
+  /\ UNCHANGED <<clog, segs, next, hw, cacheOn, segCap, paused, pend, cur, fails, cln>>
+
+\* a FetchCursor sent to the server that does not lead the cursors partition is refused
+DoFetchOther(k) ==
+  /\ obs' = [a |-> "FetchOther", ret |-> -1, err |-> "FailedPrecondition"]
+  /\ UNCHANGED <<clog, segs, next, hw, cache, cacheOn, segCap, ldr, ocache, paused, pend, cur, gen, fails, cln>>
 
 -----------------------------------------------------------------------------
 (* What property C11 demands *)
@@ -269,6 +306,10 @@ P_FetchBegin(c, k) == /\ obs'.err \in {"done", "pending"}
 \* a FetchCursor that overlapped SetCursor calls returns the value stored
 \* before it was invoked or one stored while it ran
 P_FetchEnd(c) == obs'.err = "" /\ obs'.ret \in pend[c].allowed \cup Maybe(pend[c].key)
+
+\* a server that does not lead the cursors partition may refuse; if it answers, then
+\* with the last stored value like everybody else
+P_FetchOther(k) == obs'.err # "" \/ obs'.ret \in {cur[k]} \cup Maybe(k)
 
 \* the register itself changes only by successful SetCursor calls
 P_Other == cur' = cur
